@@ -73,6 +73,24 @@ def run(ctx):
                 _ir.monitor_data(ctx, focus=o)
                 if len(ctx.violations) > before:
                     ctx.explain('cmaxl KEval prog_%s' % o)
+    # a hyperparameter setter raises on a value outside its guard, which would abort the iteration loop: the range theorems
+    # about the schedules regenerated from the current source (Props/C15ranges.v over Gen/Schedules.v) are a C03 obligation too
+    try:
+        from props import _c15_sched
+        _c15_sched.regenerate()
+        ok2, log2 = ctx.build(_c15_sched.TARGETS, 900)
+        ctx.oblige('no scheduled hyperparameter write can raise out of run(): the range theorems of Props/C15ranges.v hold for the '
+                   'schedules regenerated from the current source', ok2, _ir.core.coq_error_excerpt(log2) if not ok2 else '')
+        if not ok2:
+            before = len(ctx.violations)
+            for o in ('IHS', 'AIWPSO', 'SA', 'FA', 'WCA'):
+                if o in meta:
+                    _ir.monitor_data(ctx, focus=o)
+            if any(v['found_input'] for v in ctx.violations[before:]):
+                ctx.explain('no scheduled hyperparameter write can raise')
+    except Exception:  # noqa: BLE001
+        import traceback
+        ctx.oblige('schedule range obligation of C03 ran', False, traceback.format_exc())
     ctx.cov['rule'] = ('theorems for all boxes/objectives/hooks/oracles/iteration counts per regenerated program; run monitor: configurations '
                        'run to completion under a wall-clock limit with hook count, sweep-follows-hook, iteration count and budget oracles')
     if ok:
